@@ -5,7 +5,9 @@ Datagram half (spec/UdpMatchOps.tla, UdpMatch.tla):
      C16_OutcomeAllowed under every arrival order (TLC, exhaustive; one and two transmissions).
   R: Gen_UdpMatch enumerates every arrival schedule over the forgery catalogue (genuine reply at
      every position or absent, case randomisation on/off) with the outcome set the property
-     allows; the real UdpClientStream is run on each over a scripted socket provider.
+     allows; the real UdpClientStream is run on each over a scripted socket provider (every
+     third case through the public DnsExchange handle).  Gen_UdpRetx does the same for two
+     sockets (one retransmission, late arrivals on the first socket).
   T: the tx/dgram/done events of those runs and of seeded random runs (up to 50 planned
      datagrams, multi-field forgeries, 1-4 transmissions, IPv4/IPv6) are validated by the
      monitor Trace_UdpMatch, which derives each datagram's view from its concrete fields.
@@ -35,7 +37,14 @@ TWOQ = '{"genuine", "id", "qname", "qcase", "extraQ", "noQ", "subsetQ"}'
 SIX = '{"genuine", "srcPort", "id", "qcase", "extraQ", "garbage"}'
 # (kinds, max schedule length, questions in the request, copies of the genuine reply)
 UDP_GEN_QUICK = [(NINE, 4, 1, 1), (TWOQ, 3, 2, 2)]
-UDP_GEN_THOROUGH = [(ALL1, 4, 1, 2), (SIX, 5, 1, 1), (TWOQ, 4, 2, 2)]
+UDP_GEN_THOROUGH = [(ALL1, 4, 1, 2), (NINE, 5, 1, 1), (TWOQ, 4, 2, 2)]
+
+RETX_GEN_CFG = ["SPECIFICATION GSpec", "CONSTANTS", "  GKinds <- P_Kinds", "  L1 = {l1}", "  L2 = {l2}", "  L3 = {l3}",
+                "  NQ = {nq}", "INVARIANT Emit", "CHECK_DEADLOCK FALSE"]
+FIVE = '{"genuine", "id", "srcPort", "qcase", "extraQ"}'
+# (kinds, arrivals on socket 1 before / on socket 2 after / on socket 1 after the retransmission, questions)
+RETX_GEN_QUICK = [(FIVE, 2, 2, 1, 1)]
+RETX_GEN_THOROUGH = [(SIX, 3, 2, 1, 1), ('{"genuine", "id", "qcase", "extraQ", "subsetQ"}', 2, 2, 1, 2)]
 
 MUX_GEN_CFG = ["SPECIFICATION GSpec", "CONSTANTS", "  N = {n}", "  Reqs <- G_Reqs", "  Ids <- G_Ids", "  Cap = {cap}",
                "  MaxTag = 99", "  MaxSteps = {steps}", "  TO = 3", "  MaxTicks = {ticks}", "  MaxNoise = {noise}",
@@ -152,6 +161,46 @@ def run(res, tier, seed):
         n_udp += n
     if n_accept_prompt == 0:
         raise vlib.ToolError("vacuous: the genuine reply was never accepted in any generated schedule")
+    # schedules with one retransmission (two sockets)
+    n_retx = n_retx_two = 0
+    for gi, (kinds, l1, l2, l3, nq) in enumerate(RETX_GEN_THOROUGH if thorough else RETX_GEN_QUICK):
+        name = f"GX{gi}"
+        cases, st = _run_gen(wd, name, "Gen_UdpRetx", {"P_Kinds": kinds},
+                             [l.format(l1=l1, l2=l2, l3=l3, nq=nq) for l in RETX_GEN_CFG])
+        res.states += st["distinct"]
+        res.transitions += st["generated"]
+        cpath, tpath, vpath = (os.path.join(wd, f"{name}.{x}.ndjson") for x in ("cases", "trace", "verdicts"))
+        vlib.write_ndjson(cpath, cases)
+        vlib.run_driver("drive_c16", ["udp-replay-retx", "--trace", tpath], stdin_path=cpath, stdout_path=vpath)
+        udp_traces.append(tpath)
+        n = 0
+        for v in vlib.read_ndjson(vpath):
+            n += 1
+            if v["adapter"]:
+                raise vlib.ToolError(f"udp harness inconsistency: {v['adapter']}")
+            if v.get("nontrivial"):
+                res.nontrivial.add(vlib.digest(v["input"]))
+            if v["observed"]["txs"] == 2:
+                n_retx_two += 1
+            if not v["ok"]:
+                res.mismatch("udp-replay:" + v["class"],
+                             {"kind": v["kind"], "cr": v["input"]["cr"], "nq": v["input"]["nq"],
+                              "outcome": v["observed"]["o"], "retransmission": True},
+                             {"generator": name, "case": v["input"], "permitted": v["expected"], "observed": v["observed"],
+                              "err": v["err"]})
+            elif v.get("nontrivial") and v["observed"]["o"] == "accept":
+                res.sample({"half": "udp", "case_randomisation": v["input"]["cr"], "socket1": v["input"]["s1"],
+                            "socket2_after_retransmission": v["input"]["s2"], "socket1_late": v["input"]["s1b"],
+                            "observed": v["observed"]}, cap=3)
+        if n != len(cases):
+            raise vlib.ToolError("driver lost udp retransmission cases")
+        _prefix_cases(tpath, name)
+        n_retx += n
+    if n_retx_two == 0:
+        raise vlib.ToolError("vacuous: no generated schedule reached the retransmission")
+    n_udp += n_retx
+    res.extra["udp_generated_schedules_with_retransmission"] = n_retx
+    res.extra["udp_generated_schedules_that_retransmitted"] = n_retx_two
     n_ur = 4000 if thorough else 600
     ur_trace, ur_out = os.path.join(wd, "UR.trace.ndjson"), os.path.join(wd, "UR.out.ndjson")
     vlib.run_driver("drive_c16", ["udp-record", "--trace", ur_trace, "--n", str(n_ur), "--seed", str(seed),
@@ -181,6 +230,7 @@ def run(res, tier, seed):
     res.extra["udp_random_outcomes"] = {o: sum(1 for v in ur_info.values() if v["o"] == o)
                                         for o in ("accept", "error", "timeout")}
     res.extra["udp_random_queries_with_retransmission"] = sum(1 for v in ur_info.values() if v["txs"] > 1)
+    res.extra["udp_random_queries_via_dns_exchange"] = sum(1 for v in ur_info.values() if v.get("via_exchange"))
 
     # ------------------------------------------------------------------ R + T, stream half
     mux_traces = []
@@ -221,6 +271,7 @@ def run(res, tier, seed):
         if v["sent"] >= 2 and v["delivered"] >= 1:
             res.nontrivial.add("mr:" + v["case"])
     bad = _monitor(res, wd, "mux", "Trace_Mux", mux_traces, 10 if thorough else 6, "mux")
+    scenario = {}   # case id -> description of the input family (labels the input; decides nothing)
     # many requests in flight at once (freshness of wire IDs): own monitor run, one case per shard
     n_ms = 12 if thorough else 6
     ms_trace, ms_out = os.path.join(wd, "MS.trace.ndjson"), os.path.join(wd, "MS.out.ndjson")
@@ -228,12 +279,29 @@ def run(res, tier, seed):
                                   "--max-reqs", "400"], stdout_path=ms_out)
     for v in vlib.read_ndjson(ms_out):
         res.nontrivial.add("ms:" + v["case"])
+        scenario[v["case"]] = {"scenario": "many-in-flight"}
     bad.update(_monitor(res, wd, "muxstress", "Trace_Mux", [ms_trace], n_ms, "mux_stress"))
-    n_mr += n_ms
+    # bursts: k responses with one in-flight ID back to back; f arrivals for nobody followed by the
+    # responses of the pending requests, all readable in one poll
+    n_mb = 16 if thorough else 8
+    mb_trace, mb_out = os.path.join(wd, "MB.trace.ndjson"), os.path.join(wd, "MB.out.ndjson")
+    vlib.run_driver("drive_c16", ["mux-bursts", "--trace", mb_trace, "--n", str(n_mb), "--seed", str(seed)],
+                    stdout_path=mb_out)
+    for v in vlib.read_ndjson(mb_out):
+        res.nontrivial.add("mb:" + v["case"])
+        kind, _, k = v["scenario"].rpartition("-")
+        if kind == "same-id-burst":
+            scenario[v["case"]] = {"scenario": "same-id-burst", "responses_in_one_poll_over_9": int(k) > 9}
+        else:
+            scenario[v["case"]] = {"scenario": "flood", "arrivals_in_one_poll_100_or_more": int(k) + v["n"] >= 100}
+    bad.update(_monitor(res, wd, "muxbursts", "Trace_Mux", [mb_trace], 4, "mux_bursts"))
+    n_mr += n_ms + 2 * n_mb
     for cid, m in bad.items():
         ev = m["event"]
-        res.mismatch("mux-trace:" + _req_of(m["why"]), {"requirement": _req_of(m["why"]), "event": ev.get("ev"),
-                                                        "how": ev.get("how", "")}, m)
+        fields = {"requirement": _req_of(m["why"]), "event": ev.get("ev"), "how": ev.get("how", ""),
+                  "scenario": "generated" if cid.startswith("GM") else "random"}
+        fields.update(scenario.get(cid, {}))
+        res.mismatch("mux-trace:" + _req_of(m["why"]), fields, m)
     # a replay that differs from the reference behaviour but is accepted by the monitor used a
     # freedom the property leaves (duplicates dropped, other admission / expiry policy)
     permitted = [d for d in deviations if d[0] not in bad]
@@ -248,7 +316,9 @@ def run(res, tier, seed):
     res.extra["mux_permitted_deviations"] = len(permitted)
     res.extra["mux_random_cases_recorded"] = n_mr
     res.extra["mux_stress_cases_400_in_flight"] = n_ms
-    # observation only (not judged): a burst of responses for one request whose receiver is not polled in between
+    res.extra["mux_burst_and_flood_cases"] = 2 * n_mb
+    # observations only (not judged here): same-ID burst through the manual driver; flood under tokio's own
+    # executor through the public DnsExchange API
     probe = vlib.run_driver("drive_c16", ["mux-probe"])
     res.extra["mux_observation_undrained_burst"] = [__import__("json").loads(l) for l in probe.splitlines() if l.strip()]
     res.exhaustive = True
